@@ -206,6 +206,17 @@ func handoverOracle(w *loop.World) []Finding {
 	return fs
 }
 
+// ghostOracle reports the verdicts of the harness' own hand-over bookkeeping (independent of the
+// counters the sidecars report).
+func ghostOracle(w *loop.World) []Finding {
+	var fs []Finding
+	for _, g := range w.Ghost {
+		parts := strings.SplitN(g, "|", 2)
+		fs = append(fs, Finding{Clause: "hand-over", Sig: "C05:loop:observed:" + parts[0], Detail: parts[1] + " (scrapes counted by the harness, not by the sidecar)"})
+	}
+	return fs
+}
+
 type loopParams struct {
 	prop      string
 	stateCap  int
@@ -265,7 +276,7 @@ type lwResp struct {
 func describe(w *loop.World, ev loop.Event) lwSucc {
 	key := w.Key()
 	s := lwSucc{Ev: ev, Key: key}
-	s.Spent = w.BudgetW == 0 && w.BudgetF == 0 && !strings.Contains(keyFaults(key), "true")
+	s.Spent = w.BudgetW == 0 && w.BudgetF == 0 && w.BudgetD == 0 && !strings.Contains(keyFaults(key), "true")
 	s.Conv, _ = w.Converged()
 	for _, e := range w.Enabled(true) {
 		s.Enabled = append(s.Enabled, e.String())
@@ -321,11 +332,12 @@ func loopChild(args []string) int {
 					}
 					w2.Apply(e)
 					resp.Steps++
-					if e.Kind == "cycle" {
+					if e.Kind == "cycle" || e.Kind == "scrape_cycle" {
 						p2 := append(append([]loop.Event{}, path...), e)
 						find(cycleOracle(w2, st.Prop), p2, w2, "")
 						if st.Handover {
 							find(handoverOracle(w2), p2, w2, "")
+							find(ghostOracle(w2), p2, w2, "")
 						}
 					}
 					succ = append(succ, describe(w2, e))
